@@ -186,7 +186,15 @@ int main(int argc, char **argv)
 {
     if (argc < 4 || std::string(argv[1]) != "run") return 2;
     std::set_terminate(onTerminate);
-    signal(SIGSEGV, onSignal); signal(SIGABRT, onSignal); signal(SIGFPE, onSignal);
+#if defined(__has_feature)
+#  if __has_feature(address_sanitizer)
+#    define VT_ASAN 1
+#  endif
+#endif
+#ifndef VT_ASAN
+    signal(SIGSEGV, onSignal);      // (the sanitizer build keeps ASan's own SEGV report, which names the faulting frame)
+#endif
+    signal(SIGABRT, onSignal); signal(SIGFPE, onSignal);
     std::ifstream in(argv[2]);
     vt::Out out(argv[3]); g_out = &out;
     long skip = argc > 4 ? atol(argv[4]) : 0;      // resume after a crash: skip the first <skip> scenarios
